@@ -242,6 +242,44 @@ def handle (kc : KdfCache) (line : String) : IO String := do
     match Noise.readMessage P (unhex prologue) (unhex r) (unhex rpk) (unhex msg) with
     | .ok (pl, spk, h) => pure s!"ok {hexOrDash pl} {hex spk} {hex h}"
     | .error e => pure s!"err {noiseErr e}"
+  | ["noise_seal_src", k, ctr, ad, p] =>
+    pure ("ok " ++ hex (NoiseSrc.chapoly_encrypt_noise RsNoise.concreteOrion (unhex k) ctr.toNat! (unhex ad) (unhex p)))
+  | ["noise_open_src", k, ctr, ad, c] =>
+    pure (match NoiseSrc.chapoly_decrypt_noise RsNoise.concreteOrion (unhex k) ctr.toNat! (unhex ad) (unhex c) with
+      | .ok b => "ok " ++ hexOrDash b
+      | .error _ => "err")
+  | ["hkdf_noise_src", ck, ikm] =>
+    let (a, b) := NoiseSrc.hkdf_noise RsNoise.concreteOrion (unhex ck) (unhex ikm); pure s!"ok {hex a} {hex b}"
+  | ["hkdf_src", salt, ikm, info, len] =>
+    pure ("ok " ++ hexOrDash (NoiseSrc.hkdf_sha256 RsNoise.concreteOrion (unhex salt) (unhex ikm) (unhex info) len.toNat!))
+  | ["noise_write_src", prologue, s, spk, rs, e, epk, payload] =>
+    let O := RsNoise.concreteOrion
+    let hs := NoiseSrc.HandshakeState.init_x O true (unhex prologue) (unhex s) (unhex spk) (some (unhex e)) (some (unhex epk)) (some (unhex rs))
+    match (NoiseSrc.HandshakeState.write_message O (fun n => zeros n) hs (unhex payload)).1 with
+    | .ok nh => pure s!"ok {hex nh.message} {hex nh.handshake_hash}"
+    | .error e => pure s!"err {noiseErr e}"
+  | ["noise_read_src", prologue, r, rpk, msg] =>
+    let O := RsNoise.concreteOrion
+    let hs := NoiseSrc.HandshakeState.init_x O false (unhex prologue) (unhex r) (unhex rpk) none none none
+    match NoiseSrc.HandshakeState.read_message O hs (unhex msg) with
+    | (.ok nh, hs') => pure s!"ok {hexOrDash nh.message} {hex ((NoiseSrc.HandshakeState.get_pubkey hs').getD [])} {hex nh.handshake_hash}"
+    | (.error e, _) => pure s!"err {noiseErr e}"
+  | ["noise_encrypt_src", s, spk, rs, e, epk, prologue, pk] =>
+    match NoiseSrc.noise_encrypt RsNoise.concreteOrion (fun n => zeros n) (unhex s) (unhex spk) (unhex rs) (some (unhex e)) (some (unhex epk)) (unhex prologue) (unhex pk) with
+    | .ok m => pure s!"ok {hex m.ciphertext} {hex m.handshake_hash}"
+    | .error e => pure s!"err {noiseErr e}"
+  | ["noise_encrypt", s, spk, rs, e, epk, prologue, pk] =>
+    match RsIO.noiseEncrypt P (fun n => zeros n) (unhex s) (unhex spk) (unhex rs) (some (unhex e)) (some (unhex epk)) (unhex prologue) (unhex pk) with
+    | .ok m => pure s!"ok {hex m.ciphertext} {hex m.handshake_hash}"
+    | .error e => pure s!"err {noiseErr e}"
+  | ["noise_decrypt_src", r, rpk, prologue, msg] =>
+    match NoiseSrc.noise_decrypt RsNoise.concreteOrion (unhex r) (unhex rpk) (unhex prologue) (unhex msg) with
+    | .ok m => pure s!"ok {hex m.payload_key} {hex m.public_key} {hex m.handshake_hash}"
+    | .error e => pure s!"err {noiseErr e}"
+  | ["noise_decrypt", r, rpk, prologue, msg] =>
+    match RsIO.noiseDecrypt P (unhex r) (unhex rpk) (unhex prologue) (unhex msg) with
+    | .ok m => pure s!"ok {hex m.payload_key} {hex m.public_key} {hex m.handshake_hash}"
+    | .error e => pure s!"err {noiseErr e}"
   | ["enc_chunks", key, aad, cs, inp, rs, ws, fs] =>
     let (res, s, k) := encryptChunksIO P.aead (unhex key) (unhex aad) cs.toNat! (mkSrc inp rs) (mkSnk ws fs)
     pure (fmtStream res s k)
